@@ -83,7 +83,15 @@ def strategy(tier):
       'ops': sized_list(weighted((3, st.just(['open'])), (3, st.just(['close'])),
                                  (4, st.tuples(st.just('advance'), st.sampled_from([0, 1, 3, 6, 12, 30])).map(list))), 1, 14),
   })
-  return weighted((4, single), (2, ref), (2, shared), (1, real))
+  shared_lbs = st.fixed_dictionaries({
+      'kind': st.just('shared_balancers'),
+      'balancers': st.integers(2, 4),
+      'ops': sized_list(weighted((3, st.tuples(st.just('open'), st.integers(0, 3)).map(list)),
+                                 (3, st.tuples(st.just('close'), st.integers(0, 3)).map(list)),
+                                 (4, st.tuples(st.just('request'), st.integers(0, 3)).map(list)),
+                                 (3, st.tuples(st.just('answer'), st.integers(0, 5)).map(list))), 1, 20),
+  })
+  return weighted((4, single), (2, ref), (2, shared), (1, real), (1, shared_lbs))
 
 
 class Conn(ClientMessageSink):
@@ -576,8 +584,148 @@ def _exec_singleton_mux(plan):
   return Outcome(nontrivial=sorted(flags) or None, classes=['singleton_over_thriftmux'] + sorted(flags))
 
 
+class _SharedTransport(MockSink):
+  """The transport behind a shared sink: records the requests it is handed (they are answered later by the harness)."""
+
+  def __init__(self):
+    MockSink.__init__(self, 0)
+    self.inflight = []
+
+  def AsyncProcessRequest(self, sink_stack, msg, stream, headers):
+    if self.closes > self.reopened:
+      sink_stack.AsyncProcessResponseMessage(MethodReturnMessage(error=Exception('connection closed')))
+      return
+    self.inflight.append((msg.properties['__vf_req'], sink_stack))
+
+  reopened = 0
+
+
+class _SharedTransportProvider(SinkProviderBase):
+  def __init__(self):
+    SinkProviderBase.__init__(self)
+    self.made = []
+
+  def CreateSink(self, properties):
+    t = _SharedTransport()
+    self.made.append(t)
+    return t
+
+  @property
+  def sink_class(self):
+    return _SharedTransport
+
+
+def _exec_shared_balancers(plan):
+  """Several heap balancers (as the Kafka client has one per topic) whose member for one broker is the same shared,
+  reference-counted sink: the connection is opened when the first balancer opens it and closed only when the last
+  balancer that holds it is closed - also when a balancer is closed with a request still in flight that is answered
+  later."""
+  from scales.loadbalancer.heap import HeapBalancerSink
+  from scales.loadbalancer.serverset import StaticServerSetProvider
+  ep = ScalesUriParser.Endpoint('broker', 9092)
+  shared = SharedSinkProvider(lambda props: props[SinkProperties.Endpoint])
+  tp = _SharedTransportProvider()
+  shared.next_provider = tp
+  n = plan['balancers']
+  lbs, opened = [], []
+  for i in range(n):
+    b = HeapBalancerSink.Builder(server_set_provider=StaticServerSetProvider([ScalesUriParser.Server(ep)]))
+    b.next_provider = shared
+    lbs.append(b.CreateSink({SinkProperties.Label: 'topic%d' % i}))
+    opened.append(False)
+  reqs = []
+  flags = set()
+
+  def transport():
+    return tp.made[0] if tp.made else None
+
+  def check(where):
+    t = transport()
+    if len(tp.made) > 1:
+      raise Violation(ID, 'shared-not-shared', '%d transports were created for one broker %s' % (len(tp.made), where))
+    holders = sum(1 for o in opened if o)
+    if t is not None and holders and t.closes > closes_expected[0]:
+      raise Violation(ID, 'shared-closed-under-holder', 'the shared connection was closed although %d balancer(s) still hold it %s' % (holders, where))
+  closes_expected = [0]
+  used = set()
+  for step, op in enumerate(plan['ops']):
+    where = '(step %d: %r)' % (step, op)
+    k = op[0]
+    if k == 'open':
+      i = op[1] % n
+      if not opened[i] and i not in used:      # one life per balancer object (a closed client is not opened again)
+        used.add(i)
+        lbs[i].Open()
+        opened[i] = True
+    elif k == 'close':
+      i = op[1] % n
+      if opened[i]:
+        if [r for r in reqs if r['lb'] == i and not r['done']]:
+          flags.add('balancer_closed_with_a_request_in_flight')
+        opened[i] = False
+        if not any(opened):
+          closes_expected[0] += 1
+        try:
+          lbs[i].Close()
+        except Exception as e:
+          raise Violation(ID, 'close-raised', 'closing balancer %d raised %r %s' % (i, e, where))
+    elif k == 'request':
+      i = op[1] % n
+      if opened[i]:
+        r = {'lb': i, 'done': False, 'completions': []}
+        reqs.append(r)
+        msg = MethodCallMessage(None, 'm', (), {})
+        msg.properties['__vf_req'] = r
+        st_ = ClientMessageSinkStack()
+        st_.Push(_Collector(), r)
+        lbs[i].AsyncProcessRequest(st_, msg, None, {})
+    elif k == 'answer':
+      t = transport()
+      if t is not None and t.inflight:
+        r, st_ = t.inflight.pop(op[1] % len(t.inflight))
+        r['done'] = True
+        if not opened[r['lb']]:
+          flags.add('answer_after_its_balancer_was_closed')
+        try:
+          st_.AsyncProcessResponseMessage(MethodReturnMessage('ok'))
+        except Exception as e:
+          raise Violation(ID, 'answer-raised', 'delivering an answer raised %r %s' % (e, where))
+    settle()
+    check(where)
+  t = transport()
+  # everything in flight is answered, then the remaining balancers are closed
+  while t is not None and t.inflight:
+    r, st_ = t.inflight.pop(0)
+    r['done'] = True
+    st_.AsyncProcessResponseMessage(MethodReturnMessage('ok'))
+    settle()
+    check('(final answers)')
+  for i in range(n):
+    if opened[i]:
+      opened[i] = False
+      if not any(opened):
+        closes_expected[0] += 1
+      lbs[i].Close()
+      settle()
+      check('(final close of balancer %d)' % i)
+  if t is not None and t.opens and t.closes < 1:
+    raise Violation(ID, 'connection-outlives-holders', 'every balancer that held the shared connection has been closed, but the connection never was')
+  nt = sorted(flags)
+  return Outcome(nontrivial=nt or None, classes=['shared_sink_held_by_balancers'] + nt)
+
+
+class _Collector(ClientMessageSink):
+  def AsyncProcessRequest(self, *a):
+    raise HarnessError('terminal')
+
+  def AsyncProcessResponse(self, sink_stack, context, stream, msg):
+    context['completions'].append(msg)
+
+
 def execute(plan):
   with World(seed=0):
+    if plan['kind'] == 'shared_balancers':
+      return _exec_shared_balancers(plan)
     if plan['kind'] == 'singleton_mux':
       return _exec_singleton_mux(plan)
     if plan['kind'] == 'singleton':
